@@ -170,12 +170,16 @@ func VerifC15Expiry() {
 		r.Header.Set("Authorization", "Bearer "+tok)
 		return r
 	}
+	// the two gates are built once, as cmd/main.go mounts them, and serve every request
+	entered := 0
+	handshake := VerifyAuthToken(context.Background(), client)
+	smoke := VerifyAuthTokenHandler(client, func(w nethttp.ResponseWriter, r *nethttp.Request) { entered++ })
 	gate := func(phase string) {
 		r := mkReq()
 		validBefore := httpcmn.VerifyHagallUserAccessToken(tok, client.Secret()) == nil
-		err := VerifyAuthToken(context.Background(), client)(nil, r)
-		entered := 0
-		VerifyAuthTokenHandler(client, func(w nethttp.ResponseWriter, r *nethttp.Request) { entered++ })(&vRecorder{h: nethttp.Header{}}, r)
+		err := handshake(nil, r)
+		entered = 0
+		smoke(&vRecorder{h: nethttp.Header{}}, r)
 		if !validBefore {
 			verifnd.Assert(err != nil, "C15.expiry.handshake_rejects_invalid_token", phase)
 			verifnd.Assert(entered == 0, "C15.expiry.smoketest_rejects_invalid_token", phase)
